@@ -26,7 +26,7 @@
    these the correspondence + crash oracle cover.
    Concurrency: model functions are pure; data races are runtime behaviour outside the model. *)
 From Sipsp Require Import Harness RunLemmas Safe SafeLeaf SafeMore SafeMsg Again SafeURI CapURI Resume Classify URIOffsets URIViews URILossless
-  Layout SigCoherent LowerBound UpperBound SigTotal CmpLaws CmpLists CmpTotal.
+  Layout SigCoherent LowerBound UpperBound SigTotal CmpLaws CmpLists CmpTotal AllVerdicts.
 Theorem C04_safety_rule : forall (St : Type) (iter : list byte -> list byte -> N -> St -> ires St)
   (P : list byte -> list byte -> N -> St -> Prop) (Q : list byte -> list byte -> N -> N -> err -> St -> Prop),
   (forall pre rest i s, P pre rest i s ->
@@ -232,3 +232,23 @@ Theorem C04_uri_list_eq_total : forall b1 o1 b2 o2, o1 <= nnat (length b1) -> o2
 Proof. exact (fun b1 o1 b2 o2 H1 H2 => conj (params_eq_total b1 o1 b2 o2 H1 H2) (hdrs_eq_total b1 o1 b2 o2 H1 H2)). Qed.
 Print Assumptions C04_uri_parse_cmp_total.
 Print Assumptions C04_uri_cmp_total.
+
+(* ---- after an error or a suspension too: whatever ParseSIPMsg answers, every field of the values kept in PHdrVals ends inside the buffer ---- *)
+Theorem C04_values_in_buffer_whatever_the_verdict : forall flags buf offs bl n nc o e m', offs <= nnat (length buf) ->
+  parse_sipmsg flags buf offs (msg_init bl (repeat hdr0 n) (repeat pfrom0 nc)) = Done o e m' ->
+  UBv (nnat (length buf)) (msg_pv m').
+Proof. exact message_wb. Qed.
+Theorem C04_values_in_buffer_whatever_the_verdict_fed : forall flags B offs bl n nc o s o' e m', testbit flags bSIPMsgNoMoreData = false -> offs <= nnat (length B) ->
+  feeds flags B offs (msg_init bl (repeat hdr0 n) (repeat pfrom0 nc)) o s ->
+  parse_sipmsg flags B o s = Done o' e m' -> UBv (nnat (length B)) (msg_pv m').
+Proof. exact message_wb_fed. Qed.
+(* satisfiable with an error verdict: a bad CSeq after a good From *)
+Example C04_error_verdict_example :
+  let buf := [73;78;86;73;84;69;32;115;58;97;32;83;73;80;47;50;46;48;13;10; 70;114;111;109;58;32;60;115;58;97;62;59;116;97;103;61;120;13;10; 67;83;101;113;58;32;120;13;10;13;10] in
+  match parse_sipmsg 0 buf 0 (msg_init 0 (repeat hdr0 4) (repeat pfrom0 2)) with
+  | Done o e m' => e <> EOk /\ e <> EMore /\ fb_uri (pv_from (msg_pv m')) = mkpf 27 3
+  | _ => False
+  end.
+Proof. vm_compute. repeat split; discriminate. Qed.
+Print Assumptions C04_values_in_buffer_whatever_the_verdict.
+Print Assumptions C04_values_in_buffer_whatever_the_verdict_fed.
